@@ -188,8 +188,15 @@ func (r *Runner) Prepare() error {
 	return nil
 }
 
+// PrivateCache, when set, is the build cache the driver builds use instead of the user's (thorough runs link some 10^5
+// throw-away packages; the directory is created and removed by the caller).
+var PrivateCache string
+
 func goEnv() []string {
 	env := os.Environ()
+	if PrivateCache != "" {
+		env = append(append([]string(nil), env...), "GOCACHE="+PrivateCache)
+	}
 	out := env[:0:0]
 	for _, e := range env {
 		if strings.HasPrefix(e, "GOFLAGS=") || strings.HasPrefix(e, "GOPROXY=") || strings.HasPrefix(e, "GOSUMDB=") || strings.HasPrefix(e, "GOTOOLCHAIN=") {
